@@ -195,29 +195,40 @@ func blockInCycle(b *ssa.BasicBlock) bool {
 	return false
 }
 
-// loopExitTest: b ends in an If one side of which leaves the cycle through b.
-func loopExitTest(b *ssa.BasicBlock) bool {
-	reaches := func(from *ssa.BasicBlock) bool {
-		seen := map[*ssa.BasicBlock]bool{}
-		stack := []*ssa.BasicBlock{from}
-		for len(stack) > 0 {
-			x := stack[len(stack)-1]
-			stack = stack[:len(stack)-1]
-			if x == b {
-				return true
-			}
-			if seen[x] {
-				continue
-			}
-			seen[x] = true
-			stack = append(stack, x.Succs...)
+// naturalLoop returns the natural loop of header b (nil if b is not a loop header).
+func naturalLoop(b *ssa.BasicBlock) map[*ssa.BasicBlock]bool {
+	var stack []*ssa.BasicBlock
+	for _, t := range b.Preds {
+		if b.Dominates(t) {
+			stack = append(stack, t)
 		}
-		return false
 	}
+	if len(stack) == 0 {
+		return nil
+	}
+	loop := map[*ssa.BasicBlock]bool{b: true}
+	for len(stack) > 0 {
+		x := stack[len(stack)-1]
+		stack = stack[:len(stack)-1]
+		if loop[x] {
+			continue
+		}
+		loop[x] = true
+		stack = append(stack, x.Preds...)
+	}
+	return loop
+}
+
+// loopExitTest: b is a loop header ending in an If one side of which leaves its natural loop.
+func loopExitTest(b *ssa.BasicBlock) bool {
 	if len(b.Succs) != 2 {
 		return false
 	}
-	return reaches(b.Succs[0]) != reaches(b.Succs[1])
+	loop := naturalLoop(b)
+	if loop == nil {
+		return false
+	}
+	return loop[b.Succs[0]] != loop[b.Succs[1]]
 }
 
 func localDependsOnParam(p *Program, v ssa.Value, prm *ssa.Parameter) bool {
